@@ -80,7 +80,7 @@ pub fn check(f: &FloatCase, st: &mut Stats) -> Result<(), Violation> {
 
 /// single-component sweep of all f32 bit patterns through (&Rgb,cfg)->Yuv at depths 8, 10, 16
 fn encode_sweep(ctx: &Ctx, st: &mut Stats) -> Vec<Violation> {
-    let stride: u64 = ctx.pick(4093, 1);
+    let stride: u64 = ctx.pick(1021, 1);
     let off = if stride > 1 { ctx.seed % stride } else { 0 };
     let count = ((1u64 << 32) - off + stride - 1) / stride;
     let block = 1u64 << 16;
@@ -142,7 +142,7 @@ fn encode_sweep(ctx: &Ctx, st: &mut Stats) -> Vec<Violation> {
 
 pub fn run(ctx: &Ctx, st: &mut Stats) -> Vec<Violation> {
     let scale = if cfg!(debug_assertions) { 3 } else { 1 };
-    let mut v = run_proptest(ctx, st, "float-histories", ctx.pick(60_000, 1_500_000) / scale, float_strategy, check);
+    let mut v = run_proptest(ctx, st, "float-histories", ctx.cases(120_000, 1_500_000) / scale, float_strategy, check);
     if !v.is_empty() {
         return v;
     }
